@@ -26,9 +26,10 @@ class FastModel(Model):
         self._cache_key_order = cache_key_order
 
     def add_def(self, sec: str, key: str, value: Any) -> None:
-        super().add_def(sec, key, value)
+        added = super().add_def(sec, key, value)
         if sec == "p" and key == "p":
             self.model[sec][key].policy = FastPolicy(self._cache_key_order)
+        return added
 
     def clear_policy(self) -> None:
         """clears all current policy."""
